@@ -18,6 +18,21 @@ QUICK = [
               "MaxN": "3", "MaxStmts": "1"}, None),
     ("bools", {"Fam": "<- FamOps", "LitPool": "<- LitsBool", "Names": "<- Names1", "BinOps": "<- OpsBoolEq",
                "MaxN": "5", "MaxD": "3", "MaxStmts": "1", "Ill0": "1"}, None),
+    ("data", {"Fam": "<- FamData", "LitPool": "<- Lits2", "Names": "<- Names1", "BinOps": "<- Ops2",
+              "TyNames": "<- TySome", "Prelude": "<- PreData", "MaxN": "3", "MaxStmts": "1"}, None),
+    ("select", {"Fam": "<- FamSelect", "LitPool": "<- LitsSel", "Names": "<- Names1", "BinOps": "<- Ops2",
+                "MaxN": "4", "MaxStk": "4", "MaxStmts": "1"}, None),
+    ("call", {"Fam": "<- FamCallPre", "LitPool": "<- Lits3", "Names": "<- Names1", "BinOps": "<- OpsFew",
+              "Prelude": "<- PreFunc", "MaxN": "4", "MaxStk": "3", "MaxStmts": "1"}, None),
+    ("foppre", {"Fam": "<- FamFopPre", "LitPool": "<- Lits2", "Names": "<- Names1", "Prelude": "<- PreFop",
+                "MaxN": "4", "MaxStk": "3", "MaxStmts": "1"}, None),
+    ("misc", {"Fam": "<- FamMisc", "LitPool": "<- LitsFmt", "Names": "<- Names1", "BinOps": "<- Ops2",
+              "TyNames": "<- TySome", "MaxN": "3", "MaxStk": "3", "MaxStmts": "1"}, None),
+    ("cast", {"Fam": "<- FamCast", "LitPool": "<- LitsCast", "Names": "<- Names1", "BinOps": "<- Ops2",
+              "MaxN": "3", "MaxStmts": "1"}, None),
+    ("module", {"Fam": "<- FamMod", "LitPool": "<- Lits2", "Names": "<- Names2", "BinOps": "<- Ops2",
+                "FldNames": "<- Flds2", "MaxN": "3", "MaxStk": "2", "MaxCtx": "2", "MaxStmts": "2",
+                "MaxModStmts": "1"}, None),
 ]
 
 
@@ -35,7 +50,10 @@ def run(pid, tier, families, t0, extra_assume=(), level="model_checking", strict
     stats = {"cases": 0, "ok": 0, "known": 0, "skip": 0, "violation": 0}
     samples = []
     nontriv = set()
+    only = os.environ.get("VERIF_ONLY")
     for name, over, sim in families:
+        if only and name not in only.split(","):
+            continue
         P.write_cfg(gd, name, over)
         cases = []
         r = C.run_tlc(mod, name, workers=8, gendir=gd, timeout=2400, heap="12g",
@@ -43,9 +61,16 @@ def run(pid, tier, families, t0, extra_assume=(), level="model_checking", strict
                       on_replay=cases.append)
         cmds.append(r.cmd)
         if r.violation:
+            from . import render as R
+            for d in r.disagree[:3]:
+                try:
+                    C.log("[model] program on which VM.tla and Eval.tla part ways:\n" + R.program(d["prog"])
+                          + "  Eval: %s\n  VM:   %s" % (P._show_spec(d["expect"]), P._show_spec(d["vm"])))
+                except Exception as e:
+                    C.log("[model] disagreement (unrenderable: %s): %r" % (e, d))
             raise C.ToolError("model-level violation of %s in family %s (DESIGN §3.7(4)): the design machine and "
                               "the reference disagree in the model; triage the TLC counterexample:\n%s"
-                              % (r.violation, name, r.errtext[-3000:]))
+                              % (r.violation, name, r.errtext[-300:]))
         C.require_tlc_ok(r, name)
         states += r.distinct or r.generated
         trans += r.generated
